@@ -88,10 +88,23 @@ VAttrOf(d, isInst) ==
          IN IF a # "" /\ p # "" THEN a \o ";" \o p ELSE a \o p
 VInst(s, i) == [name |-> StripEsc(s.instData[i].name), ref |-> StripEsc(NameOfD(s, s.instRef[i])), attr |-> VAttrOf(s.instData[i], TRUE)]
 IsConstCable(s, c) == s.cabData[c].name \in {"\\<const0>", "\\<const1>"}
+(* a port is header-aliased when some bit of it meets another net (or another bit) than its same-named one *)
+AliasedPorts(s, d) ==
+    {p \in SeqSet(s.defPorts[d]) : \E k \in DOMAIN s.portPins[p] :
+        LET w == s.pinWire[s.portPins[p][k]] IN
+        w # None /\ (s.wireCable[w] = None \/ s.cabData[s.wireCable[w]].name # s.portData[p].name
+                        \/ IndexIn(s.cabWires[s.wireCable[w]], w) # k)}
 (* the domain of C06: a single root module, port directions declared *)
 DomC06(s, n) ==
     /\ Cardinality({d \in VDefs(s, n) : s.defRefs[d] \ {s.nlTop[n]} = {}}) = 1
     /\ \A d \in VDefs(s, n) : \A j \in DOMAIN s.defPorts[d] : s.portAttr[s.defPorts[d][j]].dir # 0
+    \* every port bit meets a net inside its module (its same-named one, or others: a header-aliased port)
+    /\ \A d \in VDefs(s, n) : \A p \in SeqSet(s.defPorts[d]) : \A q \in SeqSet(s.portPins[p]) : s.pinWire[q] # None
+    \* header-aliased ports are not among the declaration styles C06 lists; the shape the reader documents and its
+    \* own tests use - every member of the alias is a scalar net, .a({\\n[1] , k}) - is judged, aliases with
+    \* bit-selects of vector nets or a whole vector net are only read (and then judged by C04 as what the reader made)
+    /\ \A d \in VDefs(s, n) : \A p \in AliasedPorts(s, d) : \A q \in SeqSet(s.portPins[p]) :
+            Len(s.cabWires[s.wireCable[s.pinWire[q]]]) = 1 /\ s.cabAttr[s.wireCable[s.pinWire[q]]].lower = 0
     \* attributes are written on wire declarations and instances: port nets and leaf modules' nets carry none
     /\ \A d \in VDefs(s, n) : \A c \in SeqSet(s.defCables[d]) :
           ((\E p \in SeqSet(s.defPorts[d]) : s.portData[p].name = s.cabData[c].name) \/ IsConstCable(s, c))
